@@ -7,14 +7,20 @@
 EXTENDS MapImpl, TLC
 
 CONSTANTS NKeys, NVals, MaxHist, TwoMaps
-VARIABLES w, prev, res, hist
+VARIABLES w, prev, res, hist, fin
 
 Keys == 0..(NKeys - 1)
 Vals == 1..NVals
 Whos == IF TwoMaps THEN {1, 2} ELSE {1}
-vars == <<w, prev, res, hist>>
+vars == <<w, prev, res, hist, fin>>
 LastOp == IF hist = <<>> THEN [op |-> "init"] ELSE hist[Len(hist)]
-View == <<w, prev, LastOp>>
+(* Exploration: a step either ADVANCES (fin' = FALSE: the successor is identified by the world and  *)
+(* the depth only, and is expanded further) or FINISHES (fin' = TRUE: the successor keeps the          *)
+(* pre-state and the operation in its identity and is a leaf).  So every transition (pre-state,        *)
+(* operation) of the implementation-shaped graph is generated, checked and exported once, while the    *)
+(* search itself runs over the distinct worlds.  The depth keeps the explored set exact for any         *)
+(* number of workers.  The branch tags of the last operation are not part of an advanced state.         *)
+View == IF fin THEN <<w, prev, LastOp, TRUE>> ELSE <<[w EXCEPT !.tags = {}], Len(hist), FALSE>>
 
 Ops == [op : {"insert", "put"}, w : Whos, k : Keys, v : Vals]
        \cup [op : {"index", "erase", "eraseIt", "find"}, w : Whos, k : Keys]
@@ -23,14 +29,15 @@ Ops == [op : {"insert", "put"}, w : Whos, k : Keys, v : Vals]
 
 AbsOf(x) == <<AbsMap(x, 1), AbsMap(x, 2)>>
 
-Init == w = NewWorld /\ prev = NewWorld /\ res = 0 /\ hist = <<>>
+Init == w = NewWorld /\ prev = NewWorld /\ res = 0 /\ hist = <<>> /\ fin = FALSE
 
 Do(op) == /\ MapApply(AbsOf(w), op).ok                          \* documented precondition
           /\ LET r == ImplApply(w, op) IN w' = r.w /\ res' = r.res
           /\ prev' = w
           /\ hist' = Append(hist, op)
 
-Next == Len(hist) < MaxHist /\ \E op \in Ops : Do(op)
+Next == /\ ~fin /\ Len(hist) < MaxHist
+        /\ \E op \in Ops : Do(op) /\ (fin' = TRUE \/ (fin' = FALSE /\ Len(hist) + 1 < MaxHist))
 Spec == Init /\ [][Next]_vars
 
 (* ---- properties ---------------------------------------------------------------------------- *)
